@@ -1412,33 +1412,33 @@ RE_BUTTON_DECL = re.compile(r"^\s*([A-Za-z_]\w*)\s*=\s*Button\s*\(\s*(.*?)\s*\)\
 RE_POTENTIOMETER_DECL = re.compile(
     r"^\s*([A-Za-z_]\w*)\s*=\s*Potentiometer\s*\(\s*(.*?)\s*\)\s*$"
 )
-RE_LED_ON         = re.compile(r"^\s*([A-Za-z_]\w*)\s*\.on\(\s*\)\s*$")
-RE_LED_OFF        = re.compile(r"^\s*([A-Za-z_]\w*)\s*\.off\(\s*\)\s*$")
-RE_LED_TOGGLE     = re.compile(r"^\s*([A-Za-z_]\w*)\s*\.toggle\(\s*\)\s*$")
-RE_LED_SET_BRIGHTNESS = re.compile(r"^\s*([A-Za-z_]\w*)\s*\.set_brightness\(\s*(.*)\s*\)\s*$")
-RE_LED_BLINK      = re.compile(r"^\s*([A-Za-z_]\w*)\s*\.blink\(\s*(.*)\s*\)\s*$")
-RE_LED_FADE_IN    = re.compile(r"^\s*([A-Za-z_]\w*)\s*\.fade_in\(\s*(.*)\s*\)\s*$")
-RE_LED_FADE_OUT   = re.compile(r"^\s*([A-Za-z_]\w*)\s*\.fade_out\(\s*(.*)\s*\)\s*$")
-RE_LED_FLASH_PATTERN = re.compile(r"^\s*([A-Za-z_]\w*)\s*\.flash_pattern\(\s*(.*)\s*\)\s*$")
-RE_BUZZER_PLAY_TONE  = re.compile(r"^\s*([A-Za-z_]\w*)\s*\.play_tone\(\s*(.*)\s*\)\s*$")
-RE_BUZZER_STOP       = re.compile(r"^\s*([A-Za-z_]\w*)\s*\.stop\(\s*\)\s*$")
-RE_BUZZER_BEEP       = re.compile(r"^\s*([A-Za-z_]\w*)\s*\.beep\(\s*(.*)\s*\)\s*$")
-RE_BUZZER_SWEEP      = re.compile(r"^\s*([A-Za-z_]\w*)\s*\.sweep\(\s*(.*)\s*\)\s*$")
-RE_BUZZER_MELODY     = re.compile(r"^\s*([A-Za-z_]\w*)\s*\.melody\(\s*(.*)\s*\)\s*$")
-RE_RGB_LED_ON        = re.compile(r"^\s*([A-Za-z_]\w*)\s*\.on\(\s*(.*)\s*\)\s*$")
-RE_RGB_LED_OFF       = re.compile(r"^\s*([A-Za-z_]\w*)\s*\.off\(\s*\)\s*$")
-RE_RGB_LED_SET_COLOR = re.compile(r"^\s*([A-Za-z_]\w*)\s*\.set_color\(\s*(.*)\s*\)\s*$")
-RE_RGB_LED_FADE      = re.compile(r"^\s*([A-Za-z_]\w*)\s*\.fade\(\s*(.*)\s*\)\s*$")
-RE_RGB_LED_BLINK     = re.compile(r"^\s*([A-Za-z_]\w*)\s*\.blink\(\s*(.*)\s*\)\s*$")
-RE_SERVO_WRITE       = re.compile(r"^\s*([A-Za-z_]\w*)\s*\.write\(\s*(.*)\s*\)\s*$")
-RE_SERVO_WRITE_US    = re.compile(r"^\s*([A-Za-z_]\w*)\s*\.write_us\(\s*(.*)\s*\)\s*$")
-RE_DC_MOTOR_SET_SPEED = re.compile(r"^\s*([A-Za-z_]\w*)\s*\.set_speed\(\s*(.*)\s*\)\s*$")
-RE_DC_MOTOR_BACKWARD  = re.compile(r"^\s*([A-Za-z_]\w*)\s*\.backward\(\s*(.*)\s*\)\s*$")
-RE_DC_MOTOR_STOP      = re.compile(r"^\s*([A-Za-z_]\w*)\s*\.stop\(\s*\)\s*$")
-RE_DC_MOTOR_COAST     = re.compile(r"^\s*([A-Za-z_]\w*)\s*\.coast\(\s*\)\s*$")
-RE_DC_MOTOR_INVERT    = re.compile(r"^\s*([A-Za-z_]\w*)\s*\.invert\(\s*\)\s*$")
-RE_DC_MOTOR_RAMP      = re.compile(r"^\s*([A-Za-z_]\w*)\s*\.ramp\(\s*(.*)\s*\)\s*$")
-RE_DC_MOTOR_RUN_FOR   = re.compile(r"^\s*([A-Za-z_]\w*)\s*\.run_for\(\s*(.*)\s*\)\s*$")
+RE_LED_ON         = re.compile(r"^\s*([A-Za-z_]\w*)\s*\.\s*on\s*\(\s*\)\s*$")
+RE_LED_OFF        = re.compile(r"^\s*([A-Za-z_]\w*)\s*\.\s*off\s*\(\s*\)\s*$")
+RE_LED_TOGGLE     = re.compile(r"^\s*([A-Za-z_]\w*)\s*\.\s*toggle\s*\(\s*\)\s*$")
+RE_LED_SET_BRIGHTNESS = re.compile(r"^\s*([A-Za-z_]\w*)\s*\.\s*set_brightness\s*\(\s*(.*)\s*\)\s*$")
+RE_LED_BLINK      = re.compile(r"^\s*([A-Za-z_]\w*)\s*\.\s*blink\s*\(\s*(.*)\s*\)\s*$")
+RE_LED_FADE_IN    = re.compile(r"^\s*([A-Za-z_]\w*)\s*\.\s*fade_in\s*\(\s*(.*)\s*\)\s*$")
+RE_LED_FADE_OUT   = re.compile(r"^\s*([A-Za-z_]\w*)\s*\.\s*fade_out\s*\(\s*(.*)\s*\)\s*$")
+RE_LED_FLASH_PATTERN = re.compile(r"^\s*([A-Za-z_]\w*)\s*\.\s*flash_pattern\s*\(\s*(.*)\s*\)\s*$")
+RE_BUZZER_PLAY_TONE  = re.compile(r"^\s*([A-Za-z_]\w*)\s*\.\s*play_tone\s*\(\s*(.*)\s*\)\s*$")
+RE_BUZZER_STOP       = re.compile(r"^\s*([A-Za-z_]\w*)\s*\.\s*stop\s*\(\s*\)\s*$")
+RE_BUZZER_BEEP       = re.compile(r"^\s*([A-Za-z_]\w*)\s*\.\s*beep\s*\(\s*(.*)\s*\)\s*$")
+RE_BUZZER_SWEEP      = re.compile(r"^\s*([A-Za-z_]\w*)\s*\.\s*sweep\s*\(\s*(.*)\s*\)\s*$")
+RE_BUZZER_MELODY     = re.compile(r"^\s*([A-Za-z_]\w*)\s*\.\s*melody\s*\(\s*(.*)\s*\)\s*$")
+RE_RGB_LED_ON        = re.compile(r"^\s*([A-Za-z_]\w*)\s*\.\s*on\s*\(\s*(.*)\s*\)\s*$")
+RE_RGB_LED_OFF       = re.compile(r"^\s*([A-Za-z_]\w*)\s*\.\s*off\s*\(\s*\)\s*$")
+RE_RGB_LED_SET_COLOR = re.compile(r"^\s*([A-Za-z_]\w*)\s*\.\s*set_color\s*\(\s*(.*)\s*\)\s*$")
+RE_RGB_LED_FADE      = re.compile(r"^\s*([A-Za-z_]\w*)\s*\.\s*fade\s*\(\s*(.*)\s*\)\s*$")
+RE_RGB_LED_BLINK     = re.compile(r"^\s*([A-Za-z_]\w*)\s*\.\s*blink\s*\(\s*(.*)\s*\)\s*$")
+RE_SERVO_WRITE       = re.compile(r"^\s*([A-Za-z_]\w*)\s*\.\s*write\s*\(\s*(.*)\s*\)\s*$")
+RE_SERVO_WRITE_US    = re.compile(r"^\s*([A-Za-z_]\w*)\s*\.\s*write_us\s*\(\s*(.*)\s*\)\s*$")
+RE_DC_MOTOR_SET_SPEED = re.compile(r"^\s*([A-Za-z_]\w*)\s*\.\s*set_speed\s*\(\s*(.*)\s*\)\s*$")
+RE_DC_MOTOR_BACKWARD  = re.compile(r"^\s*([A-Za-z_]\w*)\s*\.\s*backward\s*\(\s*(.*)\s*\)\s*$")
+RE_DC_MOTOR_STOP      = re.compile(r"^\s*([A-Za-z_]\w*)\s*\.\s*stop\s*\(\s*\)\s*$")
+RE_DC_MOTOR_COAST     = re.compile(r"^\s*([A-Za-z_]\w*)\s*\.\s*coast\s*\(\s*\)\s*$")
+RE_DC_MOTOR_INVERT    = re.compile(r"^\s*([A-Za-z_]\w*)\s*\.\s*invert\s*\(\s*\)\s*$")
+RE_DC_MOTOR_RAMP      = re.compile(r"^\s*([A-Za-z_]\w*)\s*\.\s*ramp\s*\(\s*(.*)\s*\)\s*$")
+RE_DC_MOTOR_RUN_FOR   = re.compile(r"^\s*([A-Za-z_]\w*)\s*\.\s*run_for\s*\(\s*(.*)\s*\)\s*$")
 
 _BUZZER_MELODIES = {
     "success",
@@ -1452,7 +1452,7 @@ _BUZZER_MELODIES = {
 
 # Serial primitives
 RE_SERIAL_DECL    = re.compile(r"^\s*([A-Za-z_]\w*)\s*=\s*SerialMonitor\s*\(\s*(.*?)\s*\)\s*$")
-RE_SERIAL_WRITE   = re.compile(r"^\s*([A-Za-z_]\w*)\s*\.write\(\s*(.*?)\s*\)\s*$")
+RE_SERIAL_WRITE   = re.compile(r"^\s*([A-Za-z_]\w*)\s*\.\s*write\s*\(\s*(.*?)\s*\)\s*$")
 
 #Time Primitives
 RE_SLEEP_EXPR = re.compile(r"^\s*sleep\s*\(\s*(.+?)\s*\)\s*$")
@@ -4468,13 +4468,13 @@ def _parse_source(src: str) -> Program:
         ultrasonic_measurements=set(ctx.get("ultrasonic_measure_calls", set())),
     )
 RE_LCD_DECL = re.compile(r"^\s*([A-Za-z_]\w*)\s*=\s*LCD\s*\(\s*(.*?)\s*\)\s*$")
-RE_LCD_WRITE = re.compile(r"^\s*([A-Za-z_]\w*)\s*\.write\(\s*(.*)\s*\)\s*$")
-RE_LCD_LINE = re.compile(r"^\s*([A-Za-z_]\w*)\s*\.line\(\s*(.*)\s*\)\s*$")
-RE_LCD_MESSAGE = re.compile(r"^\s*([A-Za-z_]\w*)\s*\.message\(\s*(.*)\s*\)\s*$")
-RE_LCD_CLEAR = re.compile(r"^\s*([A-Za-z_]\w*)\s*\.clear\(\s*\)\s*$")
-RE_LCD_DISPLAY = re.compile(r"^\s*([A-Za-z_]\w*)\s*\.display\(\s*(.*)\s*\)\s*$")
-RE_LCD_BACKLIGHT = re.compile(r"^\s*([A-Za-z_]\w*)\s*\.backlight\(\s*(.*)\s*\)\s*$")
-RE_LCD_BRIGHTNESS = re.compile(r"^\s*([A-Za-z_]\w*)\s*\.brightness\(\s*(.*)\s*\)\s*$")
-RE_LCD_GLYPH = re.compile(r"^\s*([A-Za-z_]\w*)\s*\.glyph\(\s*(.*)\s*\)\s*$")
-RE_LCD_PROGRESS = re.compile(r"^\s*([A-Za-z_]\w*)\s*\.progress\(\s*(.*)\s*\)\s*$")
-RE_LCD_ANIMATE = re.compile(r"^\s*([A-Za-z_]\w*)\s*\.animate\(\s*(.*)\s*\)\s*$")
+RE_LCD_WRITE = re.compile(r"^\s*([A-Za-z_]\w*)\s*\.\s*write\s*\(\s*(.*)\s*\)\s*$")
+RE_LCD_LINE = re.compile(r"^\s*([A-Za-z_]\w*)\s*\.\s*line\s*\(\s*(.*)\s*\)\s*$")
+RE_LCD_MESSAGE = re.compile(r"^\s*([A-Za-z_]\w*)\s*\.\s*message\s*\(\s*(.*)\s*\)\s*$")
+RE_LCD_CLEAR = re.compile(r"^\s*([A-Za-z_]\w*)\s*\.\s*clear\s*\(\s*\)\s*$")
+RE_LCD_DISPLAY = re.compile(r"^\s*([A-Za-z_]\w*)\s*\.\s*display\s*\(\s*(.*)\s*\)\s*$")
+RE_LCD_BACKLIGHT = re.compile(r"^\s*([A-Za-z_]\w*)\s*\.\s*backlight\s*\(\s*(.*)\s*\)\s*$")
+RE_LCD_BRIGHTNESS = re.compile(r"^\s*([A-Za-z_]\w*)\s*\.\s*brightness\s*\(\s*(.*)\s*\)\s*$")
+RE_LCD_GLYPH = re.compile(r"^\s*([A-Za-z_]\w*)\s*\.\s*glyph\s*\(\s*(.*)\s*\)\s*$")
+RE_LCD_PROGRESS = re.compile(r"^\s*([A-Za-z_]\w*)\s*\.\s*progress\s*\(\s*(.*)\s*\)\s*$")
+RE_LCD_ANIMATE = re.compile(r"^\s*([A-Za-z_]\w*)\s*\.\s*animate\s*\(\s*(.*)\s*\)\s*$")
